@@ -128,7 +128,15 @@ type run struct {
 }
 
 func (g *run) violation(op, detail, a, b, got, want string) {
-	cls := classify(op, a, b)
+	g.violationX(op, detail, a, b, got, want, nil)
+}
+
+func (g *run) violationX(op, detail, a, b, got, want string, extra []string) {
+	cop := op
+	if strings.HasPrefix(op, "iri.chain") {
+		cop = "iri.resolve"
+	}
+	cls := append(classify(cop, a, b), extra...)
 	if strings.HasPrefix(got, "panic") {
 		cls = nil // a panic is never excused by an input class
 	}
@@ -227,6 +235,97 @@ func (g *run) pair(base, ref string) {
 	}()
 }
 
+// effOpaque: what ResolveReference tests on a base (`u.Opaque != "" || iri.isOpaque`)
+func effOpaque(p *iri.ParsedIRI) bool {
+	_, opq := iri.VerifFlags(p)
+	return opq || p.URL().Opaque != ""
+}
+
+// chain: one ParsedIRI is re-based repeatedly, the way @base / xml:base / <base href> chains do:
+// cur0 = ParseIRI(b0); cur_k = cur_{k-1}.Parse(r_k). Oracle: String() of every step against the spec's iterated
+// resolve (string level: resolve(resolve(b0, r1), r2) ...). A step that deviates ends the chain (classified
+// like a single pair, plus the chain-only class chain-sticky-empty-fragment). As a consistency check the
+// private state of every chain result (effective opaque flag, forceFragment) is compared with that of
+// ParseIRI(result.String()): a chain result must be indistinguishable from a freshly parsed base.
+func (g *run) chain(b0 string, refs []string) {
+	toks := []string{vh.XS(b0)}
+	for _, r := range refs {
+		toks = append(toks, vh.XS(r))
+	}
+	op := "iri.chain " + strings.Join(toks, " ")
+	// the two renderings of the spec, iterated
+	specs := []string{}
+	spec := b0
+	for _, r := range refs {
+		spec = rfcResolve(spec, r)
+		specs = append(specs, vh.XS(spec))
+	}
+	g.add("chain-spec", op, strings.Join(specs, ","), b0, strings.Join(refs, " "), len(refs) > 1)
+	g.rep.Count(fmt.Sprintf("chain:length-%d", len(refs)))
+	defer func() {
+		if p := recover(); p != nil {
+			g.violation(op, fmt.Sprintf("panic in chain %q <- %q: %v", b0, refs, p), b0, "", "panic", "")
+		}
+	}()
+	if !validIRIRef(b0, true) {
+		return
+	}
+	cur, err := iri.ParseIRI(b0)
+	if err != nil {
+		return // judged by the single-pair oracle
+	}
+	spec = b0
+	sticky := strings.HasSuffix(b0, "#")
+	earlier := []string{b0}
+	for k, r := range refs {
+		if k > 0 {
+			earlier = append(earlier, refs[k-1])
+		}
+		{ // the chain-only class, Go vs Lean
+			toks := []string{vh.XS(r)}
+			for _, e := range earlier {
+				toks = append(toks, vh.XS(e))
+			}
+			g.add("sticky", "iri.sticky "+strings.Join(toks, " "), vh.B01(chainSticky(earlier, r)), "", "", false)
+		}
+		if !validIRIRef(spec, true) || !validIRIRef(r, false) {
+			g.rep.Count("chain:ended-invalid-input")
+			return
+		}
+		want := rfcResolve(spec, r)
+		hist := fmt.Sprintf("chain %q <- %q, step %d: base=%q ref=%q", b0, refs[:k], k+1, spec, r)
+		next, err := cur.Parse(r)
+		got := "err-ref"
+		if err == nil {
+			got = vh.XS(next.String())
+		}
+		if got != vh.XS(want) {
+			g.rep.Count(fmt.Sprintf("chain:ended-deviation-step-%d", k+1))
+			extra := []string{}
+			if chainSticky(earlier, r) {
+				extra = append(extra, "chain-sticky-empty-fragment")
+			}
+			g.violationX(op, fmt.Sprintf("%s: got %s, RFC 3986 5.2 gives %q", hist, show(got), want), spec, r, got, vh.XS(want), extra)
+			return
+		}
+		g.rep.Count("chain:step-ok")
+		// a chain result must behave like the freshly parsed string it prints as
+		if fresh, err := iri.ParseIRI(want); err == nil {
+			ff1, _ := iri.VerifFlags(next)
+			ff2, _ := iri.VerifFlags(fresh)
+			stickyNow := sticky || strings.HasSuffix(r, "#")
+			if effOpaque(next) != effOpaque(fresh) || (ff1 != ff2 && !(stickyNow && ff1 && !ff2 && g.known["chain-sticky-empty-fragment"].Key != "")) {
+				g.rep.Add(vh.Case{Kind: "disagreement", Op: op, Go: fmt.Sprintf("opaque=%v forceFragment=%v", effOpaque(next), ff1),
+					Model: fmt.Sprintf("opaque=%v forceFragment=%v", effOpaque(fresh), ff2),
+					Detail: hist + ": private state of the chain result differs from ParseIRI of its String() " + fmt.Sprintf("%q", want)})
+				return
+			}
+		}
+		sticky = sticky || strings.HasSuffix(r, "#")
+		cur, spec = next, want
+	}
+}
+
 func (g *run) single(s string) {
 	got := g.oracleParse(s)
 	g.add("parse", "iri.parse "+vh.XS(s), got, s, "", true)
@@ -304,7 +403,40 @@ func (g *run) generated(n int) {
 		if i%3 == 0 {
 			g.resolvePathCase(genPathAbempty(g.r, 5), pathRef(g.r))
 		}
+		if i%2 == 0 {
+			g.chain(genChain(g.r))
+		}
 	}
+}
+
+// genChain: a base (often one that carries private state: opaque, rootless, no authority, '#', '?') and 2-4
+// references mixing re-bases (absolute, network-path) with relative ones.
+func genChain(r *vh.Rng) (string, []string) {
+	c := gcfg{exotic: r.Chance(10)}
+	var b0 string
+	switch r.Intn(6) {
+	case 0:
+		b0 = vh.Pick(r, []string{"app:/data/doc.ttl", "tag:", "urn:example:doc", "x:/a/b", "mailto:a", "urn:a/b/c", "x:", "http:/a/b", "file:///a/b", "http://h/a#", "http://h/a?", "http://h"})
+	default:
+		b0 = genAbs(r, c, r.Chance(15))
+	}
+	n := 2 + r.Intn(3)
+	refs := make([]string, n)
+	for i := range refs {
+		switch k := r.Intn(10); {
+		case k < 3: // re-base on an ordinary hierarchical IRI
+			refs[i] = vh.Pick(r, []string{"http", "https", "file", "ex", "x"}) + "://" + vh.Pick(r, []string{"example.org", "h", "a.b:80", ""}) + genPathAbempty(r, 3) + genQF(r, true)
+		case k < 4:
+			refs[i] = genAbs(r, c, true)
+		case k < 5:
+			refs[i] = "//" + vh.Pick(r, []string{"example.org", "h", "u@h:1"}) + genPathAbempty(r, 3) + genQF(r, true)
+		case k < 6:
+			refs[i] = genQF(r, true)
+		default:
+			refs[i] = genRef(r, c)
+		}
+	}
+	return b0, refs
 }
 
 func pathRef(r *vh.Rng) string {
@@ -471,6 +603,12 @@ func main() {
 				g.pair(un(f[1]), un(f[2]))
 			case len(f) == 2 && f[0] == "iri.parse":
 				g.single(un(f[1]))
+			case len(f) >= 3 && f[0] == "iri.chain":
+				rs := []string{}
+				for _, t := range f[2:] {
+					rs = append(rs, un(t))
+				}
+				g.chain(un(f[1]), rs)
 			case len(f) == 3 && f[0] == "iri.resolvePath":
 				g.resolvePathCase(un(f[1]), un(f[2]))
 			}
@@ -484,6 +622,9 @@ func main() {
 			if _, err := os.Stat(*hints); err == nil {
 				replayLines(*hints)
 			}
+		}
+		for _, c := range chainCorpus {
+			g.chain(c[0], c[1:])
 		}
 		for _, w := range corpus {
 			g.pair(w[0], w[1])
